@@ -160,7 +160,7 @@ func (s *JoiningSource) fileSourceHandler(blk *pbbstream.Block, obj interface{})
 
 	if blk.Number >= s.lowestLiveBlockNum && isFirstDelivery(obj) {
 		if s.cursorIsTarget {
-			if src := s.liveSourceFactory.SourceThroughCursor(blk.Number, s.cursor, s.handler); src != nil {
+			if src := s.liveSourceThrough(blk); src != nil {
 				s.liveSource = src
 				verifPoint("joining.handler_live_obtained")
 				return stopSourceOnJoin
@@ -188,6 +188,18 @@ func (s *JoiningSource) liveSourceFrom(blk *pbbstream.Block) Source {
 		return byRef.SourceFromBlockRef(blk.AsRef(), s.handler)
 	}
 	return s.liveSourceFactory.SourceFromBlockNum(blk.Number, s.handler)
+}
+
+// liveSourceThrough asks the live source factory to continue, through the target cursor, from the block the
+// file source is delivering. A target cursor below that block has already passed: the live source then
+// continues as for a stream without cursor, and the join is made on the identity of the block as well.
+func (s *JoiningSource) liveSourceThrough(blk *pbbstream.Block) Source {
+	if s.cursor.Block.Num() < blk.Number {
+		if byRef, ok := s.liveSourceFactory.(SourceFromBlockRefFactory); ok {
+			return byRef.SourceFromBlockRef(blk.AsRef(), s.handler)
+		}
+	}
+	return s.liveSourceFactory.SourceThroughCursor(blk.Number, s.cursor, s.handler)
 }
 
 // isFirstDelivery tells whether the file source is delivering this block for the first time (step
